@@ -173,6 +173,17 @@ DIRECTED = [
     {"hosts": 2, "scripts": [
         S(0, ops=[("sleep", 1)]),
         S(1, onexit=2, ops=[("suspendself",), ("sleep", 1)])]},
+    # two actors turn the same host on in the same scheduling round (SimGrid boots it twice: every auto-restart actor gets two
+    # incarnations, counted as anomaly.restart.extra - the statement has no clause on restarts); each incarnation obeys the clauses
+    {"hosts": 2, "scripts": [
+        S(0, ops=[("sleep", 1), ("hostoff", 1), ("sleep", 1), ("hoston", 1), ("sleep", 2)]),
+        S(1, autorestart=1, onexit=2, ops=[("sleep", 1.5)]),
+        S(0, ops=[("sleep", 2), ("hoston", 1), ("sleep", 1)])]},
+    # suspend and resume requests on one target issued in the same scheduling round, in both orders
+    {"hosts": 2, "scripts": [
+        S(0, ops=[("sleep", 1), ("suspend", 2), ("sleep", 2), ("resume", 2), ("sleep", 1), ("resume", 2), ("sleep", 3), ("resume", 2)]),
+        S(0, ops=[("sleep", 1), ("resume", 2), ("sleep", 3), ("suspend", 2)]),
+        S(1, ops=[("sleep", 0.5), ("sleep", 1), ("exec", 1e9), ("sleep", 1)])]},
 ]
 
 # minimal witnesses of the open known findings (always run, on the plain flavour)
@@ -189,11 +200,11 @@ KNOWN = [
         S(0, ops=[("create", 1), ("sleep", 1)]),
         S(1, initial=0, ops=[("sleep", 1)]),
         S(0, ops=[("hostoff", 1), ("sleep", 2)])]},
-    # F-C11-d: two actors turn the same host on in the same scheduling round: every auto-restart actor is re-created twice
+    # F-C11-c, on_exit clause: a restarted incarnation inherits an on_exit callback and is killed (kill_all) in the round of its re-creation
     {"hosts": 2, "scripts": [
-        S(0, ops=[("sleep", 1), ("hostoff", 1), ("sleep", 1), ("hoston", 1), ("sleep", 2)]),
-        S(1, autorestart=1, ops=[("sleep", 1.5)]),
-        S(0, ops=[("sleep", 2), ("hoston", 1), ("sleep", 1)])]},
+        S(0, ops=[("sleep", 1), ("hostoff", 1), ("sleep", 1), ("killall",), ("sleep", 3)]),
+        S(1, autorestart=1, onexit=1, ops=[("sleep", 10)]),
+        S(0, ops=[("sleep", 2), ("hoston", 1), ("sleep", 3)])]},
     # F-C11-b: set_kill_time twice, the later call asking for the earlier date: the first timer fires on a dead actor
     {"hosts": 2, "scripts": [
         S(1, onexit=1, ops=[("killtime", 5), ("killtime", 3), ("sleep", 10)]),
